@@ -220,7 +220,7 @@ def _link_trace(ctx, what, props, bins):
 
 def c16(ctx):
     dev, rel = ctx.build("dev"), ctx.build("release")
-    modes = ["value", "struct", "value4"] + (["value3"] if ctx.thorough else [])
+    modes = ["value", "struct", "value4", "keys"] + (["value3"] if ctx.thorough else [])
     for mode in modes:
         out = ctx.path("lw_%s.nd" % mode)
         ctx.model_check("MC_LinkWrite", env={"MODE": mode, "OUT": out}, workers=8, timeout=900)
